@@ -445,6 +445,11 @@ impl OsIpcSender {
         let (dedicated_tx, dedicated_rx) = channel()?;
         // Extract FD handle without consuming the Receiver, so the FD doesn't get closed.
         fds.push(dedicated_rx.fd.get());
+        // Our own copy of the receiving end is only needed until the first fragment
+        // (which carries it) has been sent. Holding on to it any longer would keep the
+        // dedicated socket readable after the real receiver has gone away: followup
+        // fragments would then be "sent" to nobody -- or block forever once its buffer is full.
+        let mut dedicated_rx = Some(dedicated_rx);
 
         // Split up the packet into fragments.
         let mut byte_position = 0;
@@ -479,6 +484,9 @@ impl OsIpcSender {
                 }
             }
 
+            if byte_position == 0 {
+                drop(dedicated_rx.take());
+            }
             byte_position = end_byte_position;
         }
 
